@@ -65,8 +65,17 @@ def recipes(sp, rs):
         "fwt": (sp.fwt, [((c(8, 6),), {}), ((rs.randn(7),), {"wave_name": "haar"})]),
         "shepp_logan": (sp.shepp_logan, [(([8, 8],), {})]),
         "get_cov": (mu.get_cov, [((c(3, 10),), {}), ((c(2, 4, 5),), {})]),
-        "whiten": (mu.whiten, [((c(2, 6), np.array([[2.0, 0.5], [0.5, 1.0]])), {})]),
+        "whiten": (mu.whiten, [((c(2, 6), np.array([[2.0, 0.5], [0.5, 1.0]])), {}), ((c(3, 4, 2), np.array([[2.0, 0.5j, 0], [-0.5j, 1.0, 0.1], [0, 0.1, 3.0]])), {})]),
+        "tseg_off_res_b_ct": (mu.tseg_off_res_b_ct, [((rs.randn(4, 4) * 20, 6, 2, 4e-3, 0.1), {})]),
     }
+    wsh, wsl = sp.wavelet.get_wavelet_shape([8, 6], wave_name="db4", axes=None, level=None)
+    R["iwt"] = (sp.iwt, [((c(*wsh), [8, 6], wsl), {})])
+    try:
+        tb, tct = mu.tseg_off_res_b_ct(rs.randn(3, 3) * 20, 6, 2, 4e-3, 0.1)
+        tcoord = rs.uniform(-1.5, 1.5, (tb.shape[0], 2))
+        R["apply_tseg"] = (mu.apply_tseg, [((c(3, 3), tcoord, tb, tct), {"fwd": True}), ((c(3, 3), tcoord, tb, tct), {"fwd": False})])
+    except Exception:
+        pass
     return {k: v for k, v in R.items() if v[0] is not None}
 
 
@@ -85,6 +94,22 @@ def arrays_in(args, kwargs):
     for v in kwargs.values():
         walk(v)
     return out
+
+
+def relayout(x, mode):
+    """The same values in another memory layout: Fortran order, or a strided view into a larger buffer."""
+    if isinstance(x, np.ndarray) and x.ndim >= 1 and x.size > 1:
+        if mode == "fortran":
+            return np.asfortranarray(x)
+        buf = np.zeros(tuple(2 * n for n in x.shape), dtype=x.dtype)
+        v = buf[tuple(slice(1, None, 2) for _ in x.shape)]
+        v[...] = x
+        return v
+    if isinstance(x, list):
+        return [relayout(y, mode) for y in x]
+    if isinstance(x, tuple):
+        return tuple(relayout(y, mode) for y in x)
+    return x
 
 
 def sig(arrs):
@@ -110,17 +135,28 @@ def run(ctx):
     traces = []
     for name, (fn, calls) in sorted(R.items()):
         ev = []
-        for args, kw in calls:
+        # every recipe in three memory layouts of its array arguments (same values, hence the same argument signature: the
+        # result must be the same and no layout may be written to)
+        calls = [((relayout(args, m), {k_: relayout(v_, m) for k_, v_ in kw.items()}) if m else (args, kw)) + (m,) for args, kw in calls for m in (None, "fortran", "strided")]
+        ref_out = {}
+        for ci, (args, kw, mode) in enumerate(calls):
             for rep in range(2):
                 arrs = arrays_in(args, kw)
-                before = sig(arrs)
+                # bitwise determinism is demanded per layout (summation order may depend on strides); across layouts the values agree
+                before = (sig(arrs) + {None: 0, "fortran": 1, "strided": 2}[mode]) & 0x3FFFFFFF
                 raised = 0
                 try:
                     out = fn(*args, **kw)
                     res = sig(arrays_in((out,), {})) if not np.isscalar(out) else (hash(float(np.real(out))) & 0x3FFFFFFF)
                 except Exception:
                     raised, res = 1, 0
-                ev.append({"args_before": before, "args_after": sig(arrs), "result": res, "raised": raised})
+                ev.append({"args_before": before, "args_after": (sig(arrs) + {None: 0, "fortran": 1, "strided": 2}[mode]) & 0x3FFFFFFF, "result": res, "raised": raised})
+                if not raised and rep == 0:
+                    flat = [np.asarray(a_) for a_ in arrays_in((out,), {})] if not np.isscalar(out) else [np.asarray(out)]
+                    base = ref_out.setdefault(ci // 3, flat)
+                    if base is not flat and (len(base) != len(flat) or any(a_.shape != b_.shape or not np.allclose(a_, b_, rtol=1e-10, atol=1e-12, equal_nan=True) for a_, b_ in zip(base, flat))):
+                        r.violations.append(core.Violation(["C02"], "purity", {"kind": "layout_dependent", "function": name, "layout": mode},
+                                                           "%s: the result for %s-ordered arguments differs from the result for the same values in C order" % (name, mode), {}))
         traces.append({"id": name, "ev": ev})
     wd = tlc.fresh_dir("purity_%s" % ctx.tier)
     tres, rej = tracecheck.validate("PurityTrace", traces, wd, invariants=(), timeout=300)
